@@ -462,6 +462,8 @@ def changed_by(before, after):
 def photon_by_label(v, held, i, npix):
     """the planes of readout i of a multi-wavelength result variable, looked up BY LABEL at the wavelengths the detector
     held in that step -> (flattened values or None, problem text or None).  Labels the step did not hold must be NaN."""
+    if v["slices"] is None or i >= len(v["slices"]):
+        return None, f"the result has no slice for readout {i}"
     sl = v["slices"][i]
     labels = v["wl"]
     if sl is None or len(sl) != len(labels) * npix:
